@@ -67,6 +67,42 @@ def appendBytes (b s : Bytes) : Bytes := b ++ s
 /-- contents of `dst` after `copy(dst, src)`: `min(len(dst), len(src))` octets are overwritten. -/
 def copy (dst src : Bytes) : Bytes := src.take dst.length ++ dst.drop src.length
 
+/-! ### writes through a slice
+
+  A function that writes through a slice parameter returns the slice's new contents (see the conventions above).
+  A write through a RESLICE `b[lo:hi]` (an argument `f(b[lo:hi], …)`, `copy(b[lo:], …)`, `PutUint16(b[lo:], …)`, or a
+  local `w := b[lo:hi]` that is written through later) is three steps: take the window (`slice`/`sliceFrom`/`sliceTo`,
+  with Go's bounds panics), apply the operation to the window's contents, and put the new contents back with `splice`.
+  Every operation below keeps the length of the window, which is what makes `splice` the write-back. -/
+
+/-- `b[i] = byte(v)`: panics when `i ≥ len(b)`. -/
+def setIndex (b : Bytes) (i v : Nat) : Res Bytes :=
+  if i < b.length then .ok (b.set i (UInt8.ofNat v)) else .panic
+
+/-- contents of `b` after the window that starts at `lo` received the contents `w`. -/
+def splice (b : Bytes) (lo : Nat) (w : Bytes) : Bytes := b.take lo ++ w ++ b.drop (lo + w.length)
+
+/-- contents of `b` after `binary.BigEndian.PutUint16(b, v)` (`b[0] = byte(v >> 8); b[1] = byte(v)`): panics when
+    `len(b) < 2`. -/
+def putUint16 (b : Bytes) (v : Nat) : Res Bytes :=
+  match b with
+  | _ :: _ :: r => .ok (UInt8.ofNat (v / 256) :: UInt8.ofNat v :: r)
+  | _ => .panic
+
+/-- contents of `b` after `binary.BigEndian.PutUint32(b, v)`: panics when `len(b) < 4`. -/
+def putUint32 (b : Bytes) (v : Nat) : Res Bytes :=
+  match b with
+  | _ :: _ :: _ :: _ :: r =>
+    .ok (UInt8.ofNat (v / 16777216) :: UInt8.ofNat (v / 65536) :: UInt8.ofNat (v / 256) :: UInt8.ofNat v :: r)
+  | _ => .panic
+
+/-- an `int` difference used as an index or slice bound: a negative index panics. -/
+def natOfInt (i : Int) : Res Nat := if 0 ≤ i then .ok i.toNat else .panic
+
+/-- `pool.GetBuf(size)`: a slice of length `size` over a RECYCLED array — its contents are whatever the array held
+    before (`dirty`, a parameter of the translated function), zeros where the array is fresh. -/
+def getBuf (dirty : Bytes) (size : Nat) : Bytes := dirty.take size ++ List.replicate (size - dirty.length) 0
+
 /-- `NameBuilder.ToName()` after `NameBuilder.unpack` built `name` by appending to `n.buf[:0]` and stored
     `n.l = uint8(len(name))`: a copy of `n.buf[:n.l]`. `n.buf` is a 254-byte array; while `len(name) ≤ 254` the
     appends wrote in place and `n.buf[:n.l]` IS `name`. Beyond that `append` would have reallocated and the array
